@@ -191,7 +191,14 @@ pub fn synthetic_history(rng: &mut Rng) -> Vec<Op> {
             } else {
                 Op::Store {
                     key,
-                    eval: rng.range(0, 4000) as i32 - 2000,
+                    eval: match rng.below(8) {
+                        // the scores a search really stores include mates and window edges
+                        0 => {
+                            let d = rng.below(64) as i32;
+                            *rng.pick(&[i32::MAX - 1000, -(i32::MAX - 1000), i32::MAX - 1000 - d, -(i32::MAX - 1000) + d, 32767, -32767, i32::MAX, i32::MIN + 1, 0])
+                        }
+                        _ => rng.range(0, 4000) as i32 - 2000,
+                    },
                     mv: if rng.chance(1, 4) { None } else { Some([rng.below(64) as u8, rng.below(64) as u8, rng.below(6) as u8, rng.below(5) as u8]) },
                     depth: rng.range(0, max_depth as u64) as u8,
                     bound: rng.below(3) as u8,
@@ -201,11 +208,187 @@ pub fn synthetic_history(rng: &mut Rng) -> Vec<Op> {
         .collect()
 }
 
+
+// ---------------------------------------------------------------------------------
+// In-situ audit: the table as it lives inside the engine over several searches
+// ---------------------------------------------------------------------------------
+
+#[derive(Clone, Debug)]
+pub struct InsituStep {
+    pub fen: String,
+    pub depth: u8,
+    /// Some(j): clock-limited search whose deadline first reads expired at read j
+    pub expiry: Option<u64>,
+}
+
+#[derive(Clone, Debug)]
+pub struct Insitu {
+    pub key_seed: u64,
+    pub fault_seed: u64,
+    pub store_drop_permille: u32,
+    pub steps: Vec<InsituStep>,
+}
+
+impl Insitu {
+    fn to_json(&self) -> Value {
+        json!({"origin": "insitu", "insitu": {"key_seed": self.key_seed, "fault_seed": self.fault_seed, "store_drop_permille": self.store_drop_permille,
+            "steps": self.steps.iter().map(|s| json!({"fen": s.fen, "depth": s.depth, "expiry": s.expiry})).collect::<Vec<_>>()}})
+    }
+    fn from_json(v: &Value) -> Option<Insitu> {
+        let v = v.get("insitu")?;
+        Some(Insitu {
+            key_seed: v["key_seed"].as_u64()?,
+            fault_seed: v["fault_seed"].as_u64().unwrap_or(0),
+            store_drop_permille: v["store_drop_permille"].as_u64().unwrap_or(0) as u32,
+            steps: v["steps"].as_array()?.iter().filter_map(|s| Some(InsituStep { fen: s["fen"].as_str()?.to_string(), depth: s["depth"].as_u64()? as u8, expiry: s["expiry"].as_u64() })).collect(),
+        })
+    }
+}
+
+/// Several searches on ONE engine (no reset in between); after each, the content of the
+/// engine's table must be exactly what depth-preferred replacement makes of all stores
+/// observed so far. Returns (violation, probes, event-log hash).
+pub fn run_insitu(sc: &Insitu) -> (Option<(String, String)>, Counters, u64) {
+    let mut probes = Counters::default();
+    with_bench(|bench| {
+        let mut st = crate::simworld::SimState::new(sc.key_seed, sc.fault_seed);
+        st.ev(&format!("cfg c15 insitu {}", sc.to_json()));
+        st.record_tt_traffic = true;
+        st.tt_traffic_cap = 600_000;
+        st.max_nodes_per_search = 300_000;
+        st.buggify.rate_permille = [0, sc.store_drop_permille];
+        for (i, s) in sc.steps.iter().enumerate() {
+            if let Some(j) = s.expiry {
+                st.clock.forced_expiry.push((i as u64, j));
+            }
+        }
+        let sess = Session::new(st);
+        sess.fresh(&mut bench.searcher, false);
+        let mut model: HashMap<u64, ModelEntry> = HashMap::new();
+        let mut consumed = 0usize;
+        let mut viol = None;
+        for (i, s) in sc.steps.iter().enumerate() {
+            let board = engine::board::Board::new(&s.fen);
+            let r = sess.search(&mut bench.searcher, &board, s.depth, if s.expiry.is_some() { Some(HUGE_LIMIT) } else { None });
+            match &r.outcome {
+                crate::simworld::Outcome::Returned => {}
+                crate::simworld::Outcome::Aborted(_) => {
+                    probes.add("insitu_inconclusive_step_cap", 1);
+                    break;
+                }
+                o => {
+                    viol = Some(("crash".to_string(), format!("search {} ({} depth {}): {:?}", i, s.fen, s.depth, o)));
+                    break;
+                }
+            }
+            let full = {
+                let st = sess.st();
+                let full = st.tt_traffic.len() >= st.tt_traffic_cap;
+                for e in &st.tt_traffic[consumed..] {
+                    if let Event::TtStore { key, eval, mv, depth, bound } = e {
+                        let accept = match model.get(key) {
+                            None => true,
+                            Some(old) => {
+                                if old.depth > *depth && i > 0 {
+                                    probes.add("insitu_shallower_store_on_deeper_entry", 1);
+                                }
+                                old.depth <= *depth
+                            }
+                        };
+                        if accept {
+                            model.insert(*key, ModelEntry { eval: *eval, mv: *mv, depth: *depth, bound: *bound });
+                        }
+                    }
+                }
+                consumed = st.tt_traffic.len();
+                full
+            };
+            if full {
+                probes.add("insitu_inconclusive_traffic_cap", 1);
+                break;
+            }
+            let entries = bench.searcher.verif_tt_entries();
+            probes.add("insitu_tables_audited", 1);
+            probes.add("insitu_entries_compared", entries.len() as u64);
+            let mut keys: Vec<&u64> = model.keys().collect();
+            keys.sort();
+            let mut diff = None;
+            if entries.len() != model.len() {
+                diff = Some(format!("table holds {} entries, {} were accepted", entries.len(), model.len()));
+            }
+            for e in &entries {
+                match model.get(&e.hash_key) {
+                    None => {
+                        diff = Some(format!("entry {:016x} (eval={} depth={}) was never stored", e.hash_key, e.eval, e.depth));
+                        break;
+                    }
+                    Some(w) => {
+                        let same = e.eval == w.eval && e.depth == w.depth && e.bounds == bound_of(w.bound) && e.best_move == w.mv.map(mk_move);
+                        if !same {
+                            diff = Some(format!(
+                                "key {:016x}: table holds eval={} depth={} {:?} move={:?}; depth-preferred replacement over the observed stores gives eval={} depth={} bound={} move={:?}",
+                                e.hash_key, e.eval, e.depth, e.bounds, e.best_move.map(|m| m.to_algebraic()), w.eval, w.depth, w.bound, w.mv
+                            ));
+                            break;
+                        }
+                    }
+                }
+            }
+            if let Some(d) = diff {
+                viol = Some(("table_content_differs_from_accepted_stores".to_string(), format!("after search {} ({} depth {} expiry {:?}): {}", i, s.fen, s.depth, s.expiry, d)));
+                break;
+            }
+        }
+        let h = sess.st().log_hash;
+        (viol, probes, h)
+    })
+}
+
+pub fn gen_insitu(rng: &mut Rng) -> Insitu {
+    let p = if rng.chance(1, 4) {
+        // positions with mates and stalemates inside the horizon: mate scores get stored
+        crate::rules::Pos::from_fen(*rng.pick(crate::gen::EDGE_FENS)).unwrap()
+    } else {
+        sample_position(rng)
+    };
+    let p = if p.legal_moves().is_empty() { crate::rules::Pos::startpos() } else { p };
+    let mut fens = vec![fen_for_search(&p)];
+    // a successor: its tree overlaps the parent's at other depths
+    if let Some(m) = crate::gen::pick_move(rng, &p, 1) {
+        let q = p.make(&m);
+        if !q.legal_moves().is_empty() {
+            fens.push(fen_for_search(&q));
+        }
+    }
+    let n = rng.range(2, 5);
+    let maxd = if p.piece_count() <= 10 { 4 } else { 3 };
+    let steps = (0..n)
+        .map(|_| InsituStep {
+            fen: if rng.chance(3, 4) { fens[0].clone() } else { rng.pick(&fens).clone() },
+            depth: rng.range(1, maxd) as u8,
+            expiry: if rng.chance(1, 4) { Some(rng.log_range(1, 3000)) } else { None },
+        })
+        .collect();
+    Insitu {
+        key_seed: rng.next_u64(),
+        fault_seed: rng.next_u64(),
+        store_drop_permille: if rng.chance(1, 4) { 100 } else { 0 },
+        steps,
+    }
+}
+
 fn scenario_json(ops: &[Op], origin: &str) -> Value {
     json!({"origin": origin, "ops": ops.iter().map(|o| o.to_json()).collect::<Vec<_>>()})
 }
 
 pub fn replay_value(v: &Value) -> Vec<Violation> {
+    if let Some(sc) = Insitu::from_json(v) {
+        let (viol, _, h) = run_insitu(&sc);
+        return viol
+            .into_iter()
+            .map(|(class, detail)| Violation { prop: "C15".into(), class, detail, scenario: sc.to_json(), sim_index: 0, sim_seed: 0, log_hash: h })
+            .collect();
+    }
     let Some(arr) = v["ops"].as_array() else { return vec![] };
     let ops: Vec<Op> = arr.iter().filter_map(Op::from_json).collect();
     let (viol, _) = replay_ops(&ops);
@@ -223,6 +406,44 @@ pub fn replay_value(v: &Value) -> Vec<Violation> {
 }
 
 pub fn shrink_value(v: &Value) -> Vec<Value> {
+    if let Some(sc) = Insitu::from_json(v) {
+        let mut out = vec![];
+        for i in 0..sc.steps.len() {
+            let mut a = sc.clone();
+            a.steps.remove(i);
+            if !a.steps.is_empty() {
+                out.push(a.to_json());
+            }
+        }
+        if sc.store_drop_permille != 0 {
+            let mut a = sc.clone();
+            a.store_drop_permille = 0;
+            out.push(a.to_json());
+        }
+        for i in 0..sc.steps.len() {
+            if sc.steps[i].expiry.is_some() {
+                let mut a = sc.clone();
+                a.steps[i].expiry = None;
+                out.push(a.to_json());
+            }
+            if sc.steps[i].depth > 1 {
+                let mut a = sc.clone();
+                a.steps[i].depth -= 1;
+                out.push(a.to_json());
+            }
+            if sc.steps[i].fen != sc.steps[0].fen {
+                let mut a = sc.clone();
+                a.steps[i].fen = sc.steps[0].fen.clone();
+                out.push(a.to_json());
+            }
+        }
+        if sc.key_seed != 0 {
+            let mut a = sc.clone();
+            a.key_seed = 0;
+            out.push(a.to_json());
+        }
+        return out;
+    }
     let Some(arr) = v["ops"].as_array() else { return vec![] };
     let ops: Vec<Op> = arr.iter().filter_map(Op::from_json).collect();
     let origin = v["origin"].as_str().unwrap_or("").to_string();
@@ -261,6 +482,23 @@ pub fn run(ctx: &Ctx) -> i32 {
         let seed = derive(ctx.seed, "C15", i);
         let mut rng = Rng::new(seed);
         let mut res = SimResult::default();
+        if i % 6 == 1 {
+            let sc = gen_insitu(&mut rng);
+            let (viol, probes, h) = run_insitu(&sc);
+            res.evaluations = 1;
+            res.probes.merge(&probes);
+            res.probes.add("insitu_sessions", 1);
+            res.faults.add("deadline_expired_mid_search", sc.steps.iter().filter(|s| s.expiry.is_some()).count() as u64);
+            res.log_hash = h;
+            res.distinct.push(hash_str(&sc.to_json().to_string()));
+            if let Some((class, detail)) = viol {
+                res.violations.push(Violation { prop: "C15".into(), class, detail, scenario: sc.to_json(), sim_index: i, sim_seed: seed, log_hash: h });
+            }
+            if i == 1 {
+                res.sample = Some(sc.to_json());
+            }
+            return res;
+        }
         let (ops, origin): (Vec<Op>, String) = if i % 3 == 0 {
             // recorded traffic of simulated searches on one table: an interrupted search,
             // then completed ones, optionally with refused stores
@@ -315,7 +553,7 @@ pub fn run(ctx: &Ctx) -> i32 {
                 log_hash: h,
             });
         }
-        if i == 1 || i == 2 {
+        if i == 2 || i == 4 {
             res.sample = Some(json!({"origin": origin, "ops": ops.iter().take(12).map(|o| o.to_json()).collect::<Vec<_>>(), "length": ops.len()}));
         } else if i == 0 {
             res.sample = Some(json!({"origin": origin, "length": ops.len(), "first_ops": ops.iter().take(6).map(|o| o.to_json()).collect::<Vec<_>>()}));
@@ -324,10 +562,11 @@ pub fn run(ctx: &Ctx) -> i32 {
     });
     let ev = Evidence {
         level: "exploration",
-        rule: "Histories of store/retrieve calls: one third recorded from simulated searches on one table (a clock-interrupted search followed by two completed ones, optionally with refused stores), two thirds synthetic over 1-6 keys (some differing only in their high bits) with depths 0..4 and many ties. Each history is replayed call by call on a fresh real TranspositionTable next to a reference map with depth-preferred replacement; every retrieve must return exactly the reference's answer. A case = a history with at least one store and one retrieve; distinct by content hash.".into(),
+        rule: "Three kinds of history. In-situ (one sixth): 2-5 searches on ONE engine without reset (same position at other depths, a successor whose tree overlaps, clock-interrupted searches, refused stores); after each search the content of the engine's own table must equal what depth-preferred replacement makes of every store call observed since the engine was created. Replayed: histories of store/retrieve calls, one third recorded from simulated searches on one table (a clock-interrupted search followed by two completed ones, optionally with refused stores), the rest synthetic over 1-6 keys (some differing only in their high bits) with depths 0..4, many ties and scores that include mate values and window edges. Each history is replayed call by call on a fresh real TranspositionTable next to a reference map with depth-preferred replacement; every retrieve must return exactly the reference's answer. A case = a history with at least one store and one retrieve; distinct by content hash.".into(),
         extra: serde_json::Map::new(),
         assumptions: vec![
-            "the table is a deterministic function of its call sequence, so replaying recorded calls is equivalent to observing returns inside the search".into(),
+            "the table is a deterministic function of its call sequence, so replaying recorded calls is equivalent to observing returns inside the search; the in-situ audit covers what the engine does to its table between calls (per-search housekeeping)".into(),
+            "every store goes through TranspositionTable::store (the observation point of the in-situ audit)".into(),
             "the synthetic part is model-based sequence testing, not fault injection: the table has no schedule or fault of its own".into(),
         ],
         exhaustive: None,
